@@ -25,6 +25,10 @@ pub enum Client {
     SplitGet,
     /// well-formed GET split after k bytes
     SplitAt(usize),
+    /// the first k bytes of a well-formed GET (or, from 1000 on, of a POST), then close
+    CloseAfter(usize),
+    /// the first k bytes of a well-formed GET, then reset
+    ResetAfter(usize),
     ResetPartial,
     ResetAfterRequest,
     GetNoRead,
@@ -133,6 +137,17 @@ fn act(addr: &str, c: Client) -> Result<Option<Result<Response, String>>, String
             std::thread::sleep(settle);
             let _ = s.write_all(&REQ[cut..]);
             answered = Some(read_response(&mut s, Duration::from_millis(1500)));
+        }
+        Client::CloseAfter(k) => {
+            const POST: &[u8] = b"POST /metrics HTTP/1.1\r\n\r\n";
+            let bytes = if k >= 1000 { &POST[..(k - 1000).min(POST.len())] } else { &REQ[..k.min(REQ.len())] };
+            let _ = s.write_all(bytes);
+            std::thread::sleep(settle);
+        }
+        Client::ResetAfter(k) => {
+            let _ = s.write_all(&REQ[..k.min(REQ.len())]);
+            std::thread::sleep(settle);
+            reset(&s);
         }
         Client::ResetPartial => {
             let _ = s.write_all(b"GET /metrics HT");
@@ -253,6 +268,16 @@ pub fn sequences(tier: Tier) -> Vec<Seq> {
     for k in 1..REQ.len() {
         v.push(Seq(vec![(Client::SplitAt(k), ObsKind::Valid)]));
     }
+    // a well-formed GET (and a POST) cut off after every number of bytes, by close and by reset
+    for k in 0..REQ.len() {
+        v.push(Seq(vec![(Client::CloseAfter(k), ObsKind::Valid)]));
+        if tier == Tier::Thorough || k < 8 || k % 4 == 0 {
+            v.push(Seq(vec![(Client::ResetAfter(k), ObsKind::Valid)]));
+        }
+    }
+    for k in 1..8 {
+        v.push(Seq(vec![(Client::CloseAfter(1000 + k), ObsKind::Valid)]));
+    }
     // length 2
     for c1 in CLIENTS {
         for c2 in CLIENTS {
@@ -355,7 +380,7 @@ pub fn run(tier: Tier) -> i32 {
     rep.cover("distinct_nontrivial", json!(nontrivial));
     rep.cover("failing_sequences_confirmed_on_fresh_process", json!(failing));
     rep.cover("process_restarts", json!(restarts));
-    rep.cover("rule", json!("all sequences of (client behaviour, observation-socket behaviour) pairs: length 1 full product (11 x 5); length 2 over all client pairs (quick: with a valid observation socket, plus all observation pairs on well-formed clients; thorough: full product) and, thorough, length 3 with at most two non-default elements and length 4 over all client triples and all observation-socket triples; each followed by a well-formed probe with a valid observation socket that must get status 200 within 3 s; non-trivial = sequences containing at least one hostile element"));
+    rep.cover("rule", json!("all sequences of (client behaviour, observation-socket behaviour) pairs: length 1 full product (11 x 5), plus a well-formed GET split after every byte position and cut off (close, reset) after every number of bytes; length 2 over all client pairs (quick: with a valid observation socket, plus all observation pairs on well-formed clients; thorough: full product) and, thorough, length 3 with at most two non-default elements and length 4 over all client triples and all observation-socket triples; each followed by a well-formed probe with a valid observation socket that must get status 200 within 3 s; non-trivial = sequences containing at least one hostile element"));
     rep.cover("samples", json!(seqs.iter().step_by(seqs.len() / 5 + 1).map(|s| json!(s)).collect::<Vec<_>>()));
     rep.cover("exhaustive", json!(true));
     rep.assume("kernel-level timing of FIN/RST delivery is not controlled: each behaviour waits a few milliseconds for its effect to be observable; a failure is reported only if it repeats on a fresh exporter process");
